@@ -65,8 +65,12 @@ def main():
         notes.append(f"harness shard errors: {herr[:2]}")
     items = []
     framework = []
+    crashed = []
     for s in scens:
         r = res.get(s.sid)
+        if r is not None and r.get("crashed"):
+            crashed.append(s.sid)
+            continue
         if r is None or not r["done"] or r["error"] or r["adr"] is None:
             framework.append((s.sid, None if r is None else r.get("error")))
             continue
@@ -110,9 +114,17 @@ def main():
 
     violations = 0
     lines = []
+    if crashed:
+        # a crash of the real code on a concrete scenario is a failing input
+        s = byid[crashed[0]]
+        fn = hl.write_replay(pid, {"property": pid, "kind": "implementation-crashed-on-scenario",
+                                   "scenario": P.to_replay(s), "scenario_text": s.text(),
+                                   "what": res[s.sid]["crashed"], "others": crashed[1:10]})
+        lines.append(f"VIOLATION property={pid} replay={fn}")
+        violations += len(crashed)
     for cls, sids in known_hits.items():
         lines.append(f"KNOWN-FINDING: property={pid} class={cls} {known[cls]} (e.g. scenario {sids[0]}; {len(sids)} hit(s))")
-    if mon_fail:
+    if mon_fail and not crashed:
         s = byid[mon_fail[0]]
         fn = hl.write_replay(pid, {"property": pid, "kind": "monitor-failed-on-implementation",
                                    "scenario": P.to_replay(s), "scenario_text": s.text(),
@@ -120,7 +132,7 @@ def main():
                                    "others": mon_fail[1:20]})
         lines.append(f"VIOLATION property={pid} replay={fn}")
         violations += len(mon_fail)
-    elif proj_fail or proof_broken or unparsed or framework:
+    elif (proj_fail or proof_broken or unparsed or framework) and not crashed and not mon_fail:
         what = {}
         if proof_broken:
             what["theorem"] = proof_broken
